@@ -118,13 +118,26 @@ class Gen:
             if not self.paused and not (o[0] == "c" and c != "cmul"):
                 self.last_lhs = k
         elif x < 0.40:
-            k = r.choice(live); i = r.choice(live); m = r.randint(-3, 3)
-            self.emit("adep %d %d %d" % (k, i, m))
+            k = r.choice(live)
+            if r.random() < 0.4:
+                # array form: n right-hand sides (repeats allowed, zero multipliers push nothing), multiplier stride 1..3,
+                # through an Active, an ActiveReference or an ActiveConstReference
+                n = r.choice([0, 1, 2, 2, 3, 4])
+                terms = " ".join("%d %d" % (r.choice(live), r.randint(-3, 3)) for _ in range(n))
+                self.emit(("adepv %s %d %d : %s" % (r.choice("arc"), k, r.choice([1, 1, 2, 3]), terms)).rstrip())
+            else:
+                i = r.choice(live); m = r.randint(-3, 3)
+                self.emit("adep %d %d %d" % (k, i, m))
             if not self.paused:
                 self.last_lhs = k
         elif x < 0.46 and self.last_lhs in self.live:
-            i = r.choice(live); m = r.randint(-3, 3)
-            self.emit("apdep %d %d %d" % (self.last_lhs, i, m))
+            if r.random() < 0.4:
+                n = r.choice([0, 1, 2, 2, 3])
+                terms = " ".join("%d %d" % (r.choice(live), r.randint(-3, 3)) for _ in range(n))
+                self.emit(("apdepv %s %d %d : %s" % (r.choice("arc"), self.last_lhs, r.choice([1, 2, 2, 3]), terms)).rstrip())
+            else:
+                i = r.choice(live); m = r.randint(-3, 3)
+                self.emit("apdep %d %d %d" % (self.last_lhs, i, m))
         elif x < 0.50:
             k = self.nxt; self.nxt += 1
             self.live[k] = 0
@@ -294,10 +307,10 @@ def dual_eval(ops, impl_lines):
     for o, l in zip(ops, impl_lines):
         w = o.split()
         c = w[0]
-        records = (c in ("new", "newc", "setp", "asg", "cmul", "adep")
+        records = (c in ("new", "newc", "setp", "asg", "cmul", "adep", "adepv")
                    or (c in ("cadd", "csub") and len(w) > 2 and w[2][0] == "v"))
         if records:
-            k0 = int(w[1])
+            k0 = int(w[2]) if c == "adepv" else int(w[1])
             # a dependence of a freshly constructed variable on itself refers to whatever its (possibly recycled)
             # slot held before: undefined, not judged
             before[k0] = env[k0][1] if k0 in env else {UNDEF: 1}
@@ -330,6 +343,16 @@ def dual_eval(ops, impl_lines):
         elif c == "adep":
             k, i, m = int(w[1]), int(w[2]), int(w[3])
             env[k] = (env[k][0], _dscale(env[i][1], m))
+        elif c in ("adepv", "apdepv"):
+            # array forms: d[k] = sum m_j d[i_j]  /  d[k] += sum m_j d[i_j]
+            if l == "ok":
+                k = int(w[2])
+                terms = [(int(w[j]), int(w[j + 1])) for j in range(5, len(w) - 1, 2)]
+                acc = {} if c == "adepv" else env[k][1]
+                for i, m in terms:
+                    gi = before.get(k, {}) if i == k else env[i][1]
+                    acc = _dadd(acc, _dscale(gi, m))
+                env[k] = (env[k][0], acc)
         elif c == "apdep":
             if l == "ok":       # a failed append (wrong_gradient) changes nothing
                 k, i, m = int(w[1]), int(w[2]), int(w[3])
